@@ -6,6 +6,10 @@ package main
 // ONE log in a total order, and the framing / timing noise: the byte stream is cut at random
 // points, handlers sleep, GOMAXPROCS varies.  Everything is derived from the input fields.
 //
+// (recmode 0 default LogPanic | 1 counting hook set in the Config before Client() | 2 the same hook
+// installed through conn.Config().Recover AFTER the built-in handlers and half of the user handlers
+// were registered: the function configured when the panic happens must get it.  seed%3 == 0: a small
+// cfg.Timeout (the dial timeout, unrelated to handlers) together with handlers slower than it.)
 // input  = [procs; track; recmode; endmode; close_at; c_fg; c_bg; d_fg; d_bg; seed; panic%; park%;
 //           V; (n_fg n_bg) x V; L; code x L; arg x L]
 //          code = verb index (0 = the 001 line) | 900 our JOIN of #c | short lines that make a built-in
@@ -114,6 +118,8 @@ func dspVerbName(track, v int) string {
 	}
 	return []string{"PING", "PRIVMSG", "CTCP", "NICK", "NOTICE", "372", "V7"}[(v-1)%7]
 }
+
+func (c *dspCase) smallTimeout() bool { return c.seed%3 == 0 }
 
 func (c *dspCase) arg(k int) int {
 	if k < len(c.args) {
@@ -383,7 +389,11 @@ func (r *dspRun) sleep(kind, k, i int) {
 	case h < 992:
 		time.Sleep(time.Duration(dspHash(r.c.seed, 3000+kind, k, i)%2000) * time.Microsecond)
 	default:
-		time.Sleep(20 * time.Millisecond)
+		if r.c.smallTimeout() {
+			time.Sleep(70 * time.Millisecond) // longer than cfg.Timeout
+		} else {
+			time.Sleep(20 * time.Millisecond)
+		}
 	}
 }
 
@@ -490,6 +500,11 @@ func (dspLogger) Error(f string, a ...interface{}) {
 		return
 	}
 	val := msg[j+7:]
+	if r.c.recmode != 0 {
+		// a panic went to LogPanic although another recovery function is configured
+		r.rec(9, dspKInt, 0, 0, 0)
+		return
+	}
 	id := [3]int{dspKInt, 0, 0}
 	var x, y, z int
 	r.mu.Lock()
@@ -524,6 +539,9 @@ func dspExec(in Fields) Fields {
 	if c.recmode == 1 {
 		cfg.Recover = r.recoverHook
 	}
+	if c.smallTimeout() {
+		cfg.Timeout = 30 * time.Millisecond
+	}
 	conn := client.Client(cfg)
 	r.conn = conn
 	if c.track == 1 {
@@ -545,14 +563,26 @@ func dspExec(in Fields) Fields {
 			}
 		}
 	}
-	for v := range c.vfg {
-		reg(dspVerbName(c.track, v), dspKFg, c.vfg[v], false)
-		reg(dspVerbName(c.track, v), dspKBg, c.vbg[v], true)
+	for pass := 0; pass < 2; pass++ {
+		if pass == 1 && c.recmode == 2 {
+			// reconfigure the recovery function between registrations
+			conn.Config().Recover = r.recoverHook
+		}
+		for v := range c.vfg {
+			if v%2 != pass {
+				continue
+			}
+			reg(dspVerbName(c.track, v), dspKFg, c.vfg[v], false)
+			reg(dspVerbName(c.track, v), dspKBg, c.vbg[v], true)
+		}
+		if pass == 0 {
+			reg(client.CONNECTED, dspKConnFg, c.cfg, false)
+			reg(client.CONNECTED, dspKConnBg, c.cbg, true)
+		} else {
+			reg(client.DISCONNECTED, dspKDiscFg, c.dfg, false)
+			reg(client.DISCONNECTED, dspKDiscBg, c.dbg, true)
+		}
 	}
-	reg(client.CONNECTED, dspKConnFg, c.cfg, false)
-	reg(client.CONNECTED, dspKConnBg, c.cbg, true)
-	reg(client.DISCONNECTED, dspKDiscFg, c.dfg, false)
-	reg(client.DISCONNECTED, dspKDiscBg, c.dbg, true)
 	conn.HandleFunc("DSPEND", func(*client.Conn, *client.Line) { r.endOnce.Do(func() { close(r.endSeen) }) })
 	discSeen := make(chan struct{})
 	var discOnce sync.Once
@@ -636,8 +666,8 @@ func dspExec(in Fields) Fields {
 	wait := func(ch <-chan struct{}, what string) {
 		select {
 		case <-ch:
-		case <-time.After(20 * time.Second):
-			status = "timeout-" + what
+		case <-time.After(8 * time.Second): // generous: a session takes well under a second
+			status = "hung-" + what
 		}
 	}
 	switch c.endmode {
@@ -699,7 +729,7 @@ func dspGenCase(r *Rand, o dspGenOpt, small bool) *dspCase {
 	if o.track {
 		c.track = 1
 	}
-	c.recmode = r.Intn(2)
+	c.recmode = r.Intn(3)
 	nl := r.Range(20, 400)
 	if r.Chance(60) {
 		nl = r.Range(20, 120)
